@@ -599,7 +599,7 @@ def corpus_specs():
         for f in sorted(os.listdir(d)):
             if f.endswith(".json"):
                 inp = json.load(open(os.path.join(d, f)))["input"]
-                if "spec" in inp:           # the witnesses of the second family (text worlds) are run by c13walk
+                if "spec" in inp:           # text worlds are run by c13walk, two-flavor specs by c13build
                     out.append(inp["spec"])
     return out
 
@@ -678,6 +678,9 @@ def run(ctx):
     for i in range(0, len(specs), 400):
         _, fl = run_specs(ctx, specs[i:i + 400])
         fails_by_spec += fl
+    # the manifest on two-flavor stacks (products declared under the fall-back flavor), no fed edges
+    c13build.run_flavor_family(ctx, ctx.size(40, 600), enc_world=enc_world, dec_entries=dec_entries, dec_nodes=dec_nodes,
+                               ref_graph=ref_graph, reach_plus=reach_plus)
     # second family: the composed model (walk + resolver + table texts), no fed edges
     c13walk.run_family(ctx, ctx.size(70, 1500))
     c13walk.shrink_failures(ctx)
@@ -708,7 +711,10 @@ def replay(ctx, path):
             print("  proof problem: %s %s" % (p.get("theorem"), p.get("what")))
         print("replay %s: %s" % (path, "passes" if ok else "still fails"))
         return 0 if ok else 1
-    if "world" in inp:
+    if "flavor_spec" in inp:
+        c13build.run_flavor_specs(ctx, [inp["flavor_spec"]], enc_world=enc_world, dec_entries=dec_entries, dec_nodes=dec_nodes,
+                                  ref_graph=ref_graph, reach_plus=reach_plus, nproc=1)
+    elif "world" in inp:
         w = dict(inp["world"])
         w.setdefault("features", [])
         w.setdefault("shape", "replay")
